@@ -53,6 +53,10 @@ type obj =
   | Qv of qvec
   | Rsq of n * rsq
   | Qwt of n * n * qwt            (* width, block size, tree *)
+  | Bv of bool * bitvec           (* true = BitVectorMut *)
+  | Rsn of rsnarrow
+  | Rsw of rswide
+  | Da of bool * darray
 
 let width_of = function
   | "u8" | "i8" -> 8 | "u16" | "i16" -> 16 | "u32" | "i32" -> 32
@@ -64,6 +68,8 @@ let n_of_len (l : 'a list) = n_of_int (List.length l)
 let range a b = let rec go i acc = if i < a then acc else go (i - 1) (i :: acc) in go b []
 
 let nlen_int (x : n) : int = match x with N0 -> 0 | Npos p -> int_of_pos p
+
+let rec nat_of_int i = if i <= 0 then O else S (nat_of_int (i - 1))
 
 let build kind elem path (rest : string list) : obj =
   let vals () = match rest with _ :: vs -> vs | [] -> [] in
@@ -84,6 +90,23 @@ let build kind elem path (rest : string list) : obj =
     (match path with
      | "default" -> Qwt (w, b, qwt_default)
      | _ -> of_outcome (fun t -> Qwt (w, b, t)) (qwt_new w b (List.map n_of_string (vals ()))))
+  | "bv" | "bvm" | "rsn" | "rsw" | "darray0" | "darray1" ->
+    let bits_of_string str = if str = "-" then [] else List.init (String.length str) (fun i -> str.[i] = '1') in
+    let is_pos = String.length path >= 3 && String.sub path 0 3 = "pos" in
+    let bvo : bitvec outcome =
+      if path = "default" || (kind = "bvm" && (path = "new" || path = "withcap")) then Val bv_empty
+      else if path = "withzeros" then bvm_with_zeros (n_of_string (List.hd rest))
+      else if is_pos then bv_from_positions (List.map n_of_string (vals ()))
+      else bv_from_bools (match rest with _ :: b :: _ -> bits_of_string b | _ -> []) in
+    (match kind with
+     | "bv" -> of_outcome (fun b -> Bv (false, b)) bvo
+     | "bvm" -> of_outcome (fun b -> Bv (true, b)) bvo
+     | "rsn" -> of_outcome (fun b -> of_outcome (fun r -> Rsn r) (rsn_new b)) bvo
+     | "rsw" -> of_outcome (fun b -> of_outcome (fun r -> Rsw r) (rsw_new b)) bvo
+     | _ ->
+       let s0 = (kind = "darray1") in
+       if is_pos then of_outcome (fun d -> Da (s0, d)) (da_from_positions s0 (List.map n_of_string (vals ())))
+       else of_outcome (fun b -> of_outcome (fun d -> Da (s0, d)) (da_new s0 b)) bvo)
   | _ -> Nothing
 
 let join = String.concat ","
@@ -119,6 +142,95 @@ let query (op : string) (a : n list) : string =
      | "rankall" -> join (List.map (fun i -> so sn (rsq_rank b r (a0 ()) (n_of_int i))) (range 0 (nlen_int (rsq_len r) + 1)))
      | "selectall" -> join (List.map (fun k -> so sn (rsq_select b r (a0 ()) (n_of_int k))) (range 0 (nlen_int (a1 ()))))
      | _ -> "-")
+  | Bv (m, b) ->
+    let sbo o = match o with Val (Some v) -> "S" ^ sb01 v | Val None -> "N" | Fault e -> fault_s e in
+    let n = nlen_int (bv_len b) in
+    let collect bit st = join (List.map sn (pi_collect bit b st (nat_of_int (n + 2)))) in
+    (match op with
+     | "len" -> "V" ^ sn (bv_len b)
+     | "isempty" -> tf (bv_is_empty b)
+     | "countones" -> "V" ^ sn (bv_count_ones b)
+     | "countzeros" -> sv sn (bv_count_zeros b)
+     | "get" -> sbo (bv_get b (a0 ()))
+     | "uget" -> sv sb01 (bv_get_unchecked b (a0 ()))
+     | "getbits" -> so sn (bv_get_bits m b (a0 ()) (a1 ()))
+     | "ugetbits" -> sv sn (bv_get_bits_unchecked b (a0 ()) (a1 ()))
+     | "getword" -> sv sn (bv_get_word b (a0 ()))
+     | "getall" -> join (List.map (fun i -> sbo (bv_get b (n_of_int i))) (range 0 (n + 1)))
+     | "ones" -> collect true pi_new
+     | "zeros" -> collect false pi_new
+     | "oneswp" -> collect true (pi_with_pos true b (a0 ()))
+     | "zeroswp" -> collect false (pi_with_pos false b (a0 ()))
+     | "bits" -> String.concat "" (List.map sb01 (bv_abs b))
+     | "getbitsall" -> join (List.map (fun i -> so sn (bv_get_bits m b (n_of_int i) (a0 ()))) (range 0 (n + 1)))
+     | "getwordall" -> join (List.map (fun i -> sv sn (bv_get_word b (n_of_int i))) (range 0 ((n + 63) / 64)))
+     | _ -> "-")
+  | Rsn r ->
+    let sbo o = match o with Val (Some v) -> "S" ^ sb01 v | Val None -> "N" | Fault e -> fault_s e in
+    let n = nlen_int (bv_len r.rsn_bv) in
+    (match op with
+     | "get" -> sbo (rsn_get r (a0 ()))
+     | "rank1" -> so sn (rsn_rank1 r (a0 ()))
+     | "rank0" -> so sn (rsn_rank0 r (a0 ()))
+     | "select1" -> so sn (rsn_select1 r (a0 ()))
+     | "select0" -> so sn (rsn_select0 r (a0 ()))
+     | "nones" -> sv sn (rsn_n_ones r)
+     | "nzeros" | "tnzeros" -> sv sn (rsn_n_zeros r)
+     | "urank1" -> sv sn (rsn_rank1_unchecked r (a0 ()))
+     | "uselect1" -> sv sn (rsn_select_unchecked true r (a0 ()))
+     | "uselect0" -> sv sn (rsn_select_unchecked false r (a0 ()))
+     | "getall" -> join (List.map (fun i -> sbo (rsn_get r (n_of_int i))) (range 0 (n + 1)))
+     | "rank1all" -> join (List.map (fun i -> so sn (rsn_rank1 r (n_of_int i))) (range 0 (n + 1)))
+     | "rank0all" -> join (List.map (fun i -> so sn (rsn_rank0 r (n_of_int i))) (range 0 (n + 1)))
+     | "select1all" -> join (List.map (fun k -> so sn (rsn_select1 r (n_of_int k))) (range 0 (nlen_int (a0 ()))))
+     | "select0all" -> join (List.map (fun k -> so sn (rsn_select0 r (n_of_int k))) (range 0 (nlen_int (a0 ()))))
+     | _ -> "-")
+  | Rsw r ->
+    let sbo o = match o with Val (Some v) -> "S" ^ sb01 v | Val None -> "N" | Fault e -> fault_s e in
+    let n = nlen_int (bv_len r.rsw_bv) in
+    (match op with
+     | "len" -> "V" ^ sn (bv_len r.rsw_bv)
+     | "get" -> sbo (rsw_get r (a0 ()))
+     | "rank1" -> so sn (rsw_rank1 r (a0 ()))
+     | "rank0" -> so sn (rsw_rank0 r (a0 ()))
+     | "select1" -> so sn (rsw_select1 r (a0 ()))
+     | "select0" -> so sn (rsw_select0 r (a0 ()))
+     | "nones" -> sv sn (rsw_n_ones r)
+     | "nzeros" | "tnzeros" -> "V" ^ sn (rsw_n_zeros_q r)
+     | "urank1" -> sv sn (rsw_rank1_unchecked r (a0 ()))
+     | "urank0" -> sv sn (rsw_rank0_unchecked r (a0 ()))
+     | "uselect1" -> sv sn (rsw_select_unchecked true r (a0 ()))
+     | "uselect0" -> sv sn (rsw_select_unchecked false r (a0 ()))
+     | "getall" -> join (List.map (fun i -> sbo (rsw_get r (n_of_int i))) (range 0 (n + 1)))
+     | "rank1all" -> join (List.map (fun i -> so sn (rsw_rank1 r (n_of_int i))) (range 0 (n + 1)))
+     | "rank0all" -> join (List.map (fun i -> so sn (rsw_rank0 r (n_of_int i))) (range 0 (n + 1)))
+     | "select1all" -> join (List.map (fun k -> so sn (rsw_select1 r (n_of_int k))) (range 0 (nlen_int (a0 ()))))
+     | "select0all" -> join (List.map (fun k -> so sn (rsw_select0 r (n_of_int k))) (range 0 (nlen_int (a0 ()))))
+     | _ -> "-")
+  | Da (s0, d) ->
+    let sbo o = match o with Val (Some v) -> "S" ^ sb01 v | Val None -> "N" | Fault e -> fault_s e in
+    let b = d.da_bv in
+    let n = nlen_int (da_len d) in
+    let collect bit st = join (List.map sn (pi_collect bit b st (nat_of_int (n + 2)))) in
+    (match op with
+     | "len" -> "V" ^ sn (da_len d)
+     | "isempty" -> tf (bv_is_empty b)
+     | "countones" -> "V" ^ sn (da_count_ones d)
+     | "countzeros" -> sv sn (da_count_zeros d)
+     | "get" -> sbo (da_get d (a0 ()))
+     | "select1" -> so sn (da_select1 d (a0 ()))
+     | "select0" -> so sn (da_select0 s0 d (a0 ()))
+     | "uselect1" -> sv sn (match da_select1 d (a0 ()) with Val (Some v) -> Val v | Val None -> Fault Panic | Fault e -> Fault e)
+     | "uselect0" -> sv sn (match da_select0 s0 d (a0 ()) with Val (Some v) -> Val v | Val None -> Fault Panic | Fault e -> Fault e)
+     | "getall" -> join (List.map (fun i -> sbo (da_get d (n_of_int i))) (range 0 (n + 1)))
+     | "select1all" -> join (List.map (fun k -> so sn (da_select1 d (n_of_int k))) (range 0 (nlen_int (a0 ()))))
+     | "select0all" -> join (List.map (fun k -> so sn (da_select0 s0 d (n_of_int k))) (range 0 (nlen_int (a0 ()))))
+     | "ones" -> collect true pi_new
+     | "zeros" -> collect false pi_new
+     | "oneswp" -> collect true (pi_with_pos true b (a0 ()))
+     | "zeroswp" -> collect false (pi_with_pos false b (a0 ()))
+     | "bits" -> String.concat "" (List.map sb01 (bv_abs b))
+     | _ -> "-")
   | Qwt (w, b, t) ->
     (match op with
      | "len" -> "V" ^ sn (qwt_len t)
@@ -139,12 +251,68 @@ let query (op : string) (a : n list) : string =
      | "selectall" -> join (List.map (fun k -> so sn (qwt_select w b t (a0 ()) (n_of_int k))) (range 0 (nlen_int (a1 ()))))
      | _ -> "-")
 
+let iter_run (src : string) (ops : string) (a : n list) : string =
+  let out = ref [] in
+  let emit x = out := x :: !out in
+  (match !cur with
+   | Qv q ->
+     let i = ref N0 in
+     String.iter (fun ch -> match ch with
+       | 'n' -> (match qvit_next q !i with Val (v, i') -> i := i'; emit (match v with Some x -> "S" ^ sn x | None -> "N") | Fault e -> emit (fault_s e))
+       | _ -> emit "X") ops
+   | Rsq (_, r) ->
+     let q = r.rsq_qv in
+     let i = ref N0 in
+     String.iter (fun ch -> match ch with
+       | 'n' -> (match qvit_next q !i with Val (v, i') -> i := i'; emit (match v with Some x -> "S" ^ sn x | None -> "N") | Fault e -> emit (fault_s e))
+       | _ -> emit "X") ops
+   | Bv (_, b) | Da (_, { da_bv = b; _ }) ->
+     (match src with
+      | "iter" | "bits" | "into" ->
+        let i = ref N0 in
+        String.iter (fun ch -> match ch with
+          | 'n' -> (match (if src = "into" then bvinto_next b !i else bvit_next b !i) with
+              | Val (v, i') -> i := i'; emit (match v with Some x -> "S" ^ sb01 x | None -> "N") | Fault e -> emit (fault_s e))
+          | 'l' -> emit (sv sn (bvit_len b !i))
+          | _ -> emit "X") ops
+      | "ones" | "zeros" | "oneswp" | "zeroswp" ->
+        let bit = (src = "ones" || src = "oneswp") in
+        let st = ref (if src = "ones" || src = "zeros" then pi_new else pi_with_pos bit b (List.hd a)) in
+        String.iter (fun ch -> match ch with
+          | 'n' -> let (v, st') = pi_next bit b !st in st := st'; emit (match v with Some x -> "S" ^ sn x | None -> "N")
+          | _ -> emit "X") ops
+      | _ -> emit "-")
+   | _ -> emit "-");
+  match !out with ["-"] -> "-" | l -> String.concat "," (List.rev l)
+
 let exec (toks : string list) : string =
   match toks with
   | "NEW" :: kind :: elem :: path :: rest ->
     cur := build kind elem path rest;
     (match !cur with Nothing -> "-" | Faulted e -> fault_s e | _ -> "OK")
   | "Q" :: op :: args -> query op (List.map n_of_string args)
+  | "OP" :: op :: args ->
+    (match !cur with
+     | Bv (m, b) ->
+       let num i = n_of_string (List.nth args i) in
+       if op = "tomut" then (cur := Bv (true, b); "OK")
+       else if op = "toimm" then (cur := Bv (false, b); "OK")
+       else if not m then "X"
+       else begin
+         let r = match op with
+           | "push" -> bvm_push b (num 0 <> N0)
+           | "append" -> bvm_append_bits b (num 0) (num 1)
+           | "zeros" -> bvm_extend_with_zeros b (num 0)
+           | "set" -> bvm_set b (num 0) (num 1 <> N0)
+           | "setbits" -> bvm_set_bits b (num 0) (num 1) (num 2)
+           | "extbits" -> let str = List.hd args in
+             bvm_extend_bools b (if str = "-" then [] else List.init (String.length str) (fun i -> str.[i] = '1'))
+           | "extpos" -> bvm_extend_positions b (List.map n_of_string args)
+           | _ -> Val b in
+         match r with Val b' -> cur := Bv (m, b'); "OK" | Fault e -> fault_s e
+       end
+     | _ -> "-")
+  | "ITER" :: src :: ops :: args -> iter_run src ops (List.map n_of_string args)
   | "FN" :: "selword" :: w :: k :: _ -> sv sn (select_in_word (n_of_string w) (n_of_string k))
   | "FN" :: "selword128" :: w :: k :: _ -> sv sn (select_in_word_u128 (n_of_string w) (n_of_string k))
   | "FN" :: "popcnt" :: n :: ws ->
